@@ -206,7 +206,7 @@ def run(chk: Check, tier: str, seed: int) -> None:
     for rec, res in zip(recs, core.pmap(replay, [(r_, probe) for r_ in recs])):
         chk.traces += 1
         if rec["hist"] or rec["start"]["toks"]:
-            chk.nontrivial.add((untext(rec["start"]["text"]), tuple((h["act"], untext(h["arg"])) for h in rec["hist"])))
+            chk.nontrivial.add(hash((untext(rec["start"]["text"]), tuple((h["act"], untext(h["arg"])) for h in rec["hist"]))))
         for sig, case, what in res:
             chk.violation(sig, case, what)
     for rec in [x for x in recs if x["hist"]][:3] + recs[100:102]:
